@@ -25,7 +25,7 @@ RULE = ("(a) redis 2 consumers x 1 message: all C(10,5)=252 orders of the 5+5 ga
 ASSUMPTIONS = ["Redis and RabbitMQ are wire-level fakes; the gate delays a client's command at the server, which is what arbitrary network latency can do",
                "redis priority polling order pinned (priorities_distribution 1/0/0) in the exhaustive enumeration so that a take is exactly five commands"]
 EVAL_COUNTER = "scenarios_judged"
-REQUIRED = ["scenarios_judged", "exhaustive_orders", "gated_random_runs", "mem_offset_runs", "multi_worker_runs", "deliveries_seen", "relay_runs", "relay_returns", "relay_finish_while_other_holds", "relay_handover_patterns"]
+REQUIRED = ["scenarios_judged", "exhaustive_orders", "gated_random_runs", "mem_offset_runs", "multi_worker_runs", "deliveries_seen", "relay_runs", "relay_returns", "relay_finish_while_other_holds", "relay_handover_patterns", "maintenance_while_held"]
 CASE_TIMEOUT = 150
 
 
@@ -45,6 +45,9 @@ def gen_cases(tier, seed):
     for kind in ("mem", "redis", "rabbit"):
         for i in range({"quick": 30 if kind == "mem" else 6, "thorough": 150 if kind == "mem" else 40}[tier]):
             cases.append({"type": "relay", "kind": kind, "k": rnd.choice([2, 3]), "n": rnd.choice([1, 1, 2, 3]), "seed": rnd.randrange(10**6), "ops": rnd.choice([12, 25, 40])})
+    # redis: broker maintenance (run by every connect/disconnect of any client) while a message is held
+    for i, to in enumerate([600.0, 86400.0, 90000.0, 604800.0, 86399.0, 172800.5] if tier == "thorough" else [600.0, 86400.0, 604800.0, 90000.0]):
+        cases.append({"type": "maint", "kind": "redis", "timeout": to, "wait": [1.5, 3.0, 61.0][i % 3], "seed": rnd.randrange(10**6)})
     for kind in ("mem", "redis", "rabbit"):
         for i in range({"quick": 4, "thorough": 40}[tier]):
             cases.append({"type": "workers", "kind": kind, "k": rnd.choice([2, 3]), "n": rnd.choice([3, 8, 20]), "seed": rnd.randrange(10**6), "tl": rnd.choice([1, 3, 1000])})
@@ -475,6 +478,54 @@ async def relay(loop, case, out, stats, fps):
         rig.close()
 
 
+async def maint(loop, case, out, stats, fps):
+    """Redis keeps in-flight state at the server and every client runs maintenance() when it connects or disconnects:
+    a message that is being held - well inside its execution timeout - must not be handed out again by that."""
+    from repid.message import MessageCategory
+    from rv.rigs import Rig, key_of
+
+    rig = Rig("redis", loop, seed=case["seed"])
+    try:
+        c1 = rig.make_connection("p1")
+        await c1.connect()
+        mb = c1.message_broker
+        await mb.queue_declare("q")
+        P = mb.PARAMETERS_CLASS
+        to = timedelta(seconds=case["timeout"])
+        await mb.enqueue(key_of(c1, "m1", "t", "q"), "p", P(execution_timeout=to))
+        a = mb.get_consumer("q", None, None, MessageCategory.NORMAL)
+        await a.start()
+        key, _, _ = await asyncio.wait_for(a.consume(), 5)
+        events = [(0, "D", key.id_, "holder")]
+        await asyncio.sleep(case["wait"])
+        await rig.quiesce_wire()
+        # another client comes and goes (maintenance runs twice), then a third one listens
+        c2 = rig.make_connection("p2")
+        await c2.connect()
+        await c2.disconnect()
+        c3 = rig.make_connection("p3")
+        await c3.connect()
+        b = c3.message_broker.get_consumer("q", None, None, MessageCategory.NORMAL)
+        await b.start()
+        try:
+            k2, _, _ = await asyncio.wait_for(b.consume(), 3.0)
+            events.append((1, "D", k2.id_, "bystander"))
+        except asyncio.TimeoutError:
+            pass
+        await b.finish()
+        await mb.ack(key)
+        await a.finish()
+        stats["maintenance_while_held"] += 1
+        stats["scenarios_judged"] += 1
+        fps.add(f"maint/{case['timeout']}/{case['wait']}")
+        judge_alternation(events, "redis", f"maintenance/timeout>={'1day' if case['timeout'] >= 86400 else '<1day'}", out, stats)
+        for c in (c3, c1):
+            await c.disconnect()
+        stats["unknown_server_commands"] += rig.unknown_commands()
+    finally:
+        rig.close()
+
+
 async def workers(loop, case, out, stats, fps):
     from repid import Job, Worker
     from rv.wl import World, fire_stop
@@ -552,7 +603,7 @@ def run_case(case):
         if seen_orders:
             samples.append(seen_orders[0])
     else:
-        fn = {"gated": gated, "mem": mem_offsets, "workers": workers, "relay": relay}[case["type"]]
+        fn = {"gated": gated, "mem": mem_offsets, "workers": workers, "relay": relay, "maint": maint}[case["type"]]
         args = (out, stats, fps, samples) if case["type"] == "gated" else (out, stats, fps)
         res = vl.run(lambda loop: fn(loop, case, *args), max_steps=6_000_000, seed=case["seed"])
         if res.exc is not None:
